@@ -577,9 +577,17 @@ def check_c12(c, result):
         forced.append(([('v', 'variable_declaration')], ('atom', P % 'v'), ('atom', Q % 'v'), ('atom', LIT_STATE_Q[(j + 1) % len(LIT_STATE_Q)] % 'v')))
     forced.append(([('md', 'method_declaration')], ('atom', 'md.getName() != "\\\\"'), ('atom', 'md.getDoc().GetCommentAuthor() == "John  Doe"'), ('atom', 'md.getName() != "beta"')))
     forced.append(([('md', 'method_declaration')], ('atom', 'md.getDoc().GetCommentAuthor() != "John  Doe\\\\"'), ('atom', 'md.getDoc().GetCommentAuthor() == "John  Doe"'), ('atom', 'md.getVisibility() != "a  b"')))
+    # atoms that are calls of a predicate which passes its own (value) parameter on to another predicate, the outer
+    # one called several times with different arguments in one condition
+    NESTED = ('predicate wanted(string s) { s == "run" || s == "void" || s == "public" } predicate hit(string v) { wanted(v) } '
+              'predicate hit2(string v, string w) { wanted(v) && !wanted(w) } ')
+    forced.append(([('md', 'method_declaration')], ('patom', 'hit(md.getName())'), ('patom', 'hit(md.getReturnType())'), ('patom', 'hit(md.getVisibility())'), NESTED))
+    forced.append(([('md', 'method_declaration')], ('patom', 'hit2(md.getReturnType(), md.getName())'), ('patom', 'hit2(md.getName(), md.getVisibility())'), ('patom', 'hit(md.getName())'), NESTED))
     for i in range(N[c.tier]['C12'] + len(forced)):
+        fdecl = ''
         if i < len(forced):
-            scope, A, Bf, Cf = forced[i]
+            scope, A, Bf, Cf = forced[i][:4]
+            fdecl = forced[i][4] if len(forced[i]) > 4 else ''
             nk, als = 1, [scope[0][0]]
             c.stats['c12_literal_state_cases'] += 1
         else:
@@ -589,7 +597,7 @@ def check_c12(c, result):
             scope = list(zip(als, ks))
             A, Bf, Cf = (total_formula(c, scope, c.rng.choice([0, 1, 2])) for _ in range(3))
         decls = ''
-        if i % 2 == 1:
+        if i % 2 == 1 and not fdecl:
             # atoms hidden behind predicates whose body is that single comparison: `!t0(x)` must still negate the
             # whole comparison
             kind_of = dict(scope)
@@ -612,7 +620,7 @@ def check_c12(c, result):
             (A, dA), (Bf, dB), (Cf, dC) = hide(A), hide(Bf), hide(Cf)
             decls = dA + dB + dC
             c.stats['c12_cases_with_predicate_atoms'] += 1
-        head = decls + 'FROM ' + ', '.join('%s AS %s' % (k, a) for a, k in scope) + ' '
+        head = fdecl + decls + 'FROM ' + ', '.join('%s AS %s' % (k, a) for a, k in scope) + ' '
         tail = ' SELECT ' + als[0]
         F = dict(A=A, B=Bf, AND=('and', A, Bf), OR=('or', A, Bf), NOT=('not', A),
                  DM1=('not', ('and', A, Bf)), DM1b=('or', ('not', A), ('not', Bf)), DM2=('not', ('or', A, Bf)), DM2b=('and', ('not', A), ('not', Bf)),
